@@ -297,7 +297,11 @@ pub fn run(ctx: &Ctx, rep: &mut Report) {
             if bad.is_none() && !history.is_empty() {
                 match guard(|| {
                     buf.build(world.dict.grammar()).map_err(|e| format!("{:?}", e))?;
-                    check_built(&original, &buf, &mut rng)
+                    let n = check_built(&original, &buf, &mut rng)?;
+                    // a copy of the finished buffer answers every offset question like the buffer itself
+                    let copy = buf.clone();
+                    let m = check_built(&original, &copy, &mut rng).map_err(|e| format!("copy (Clone) of the built buffer: {}", e))?;
+                    Ok(n + m)
                 }) {
                     Err(p) => bad = Some(("built_panic".into(), format!("{} at {}", p.msg, p.site))),
                     Ok(Err(m)) => bad = Some(("code_point_offsets".into(), m)),
